@@ -38,7 +38,7 @@ type Op struct {
 	As       int    `json:"as,omitempty"`        // whose credentials: 0 = the client the code was issued to, k = Clients[(k-1) mod n]
 	Pres     string `json:"pres,omitempty"`      // "" registered method, right secret/key | wrong_secret | id_only | swap_method | bad_key | none
 	BodyID   string `json:"body_id,omitempty"`   // extra client_id form value: "" | own (the As client) | owner (the code's client)
-	Redirect string `json:"redirect,omitempty"`  // "" the request's | other (another registered one) | caller (one of the As client) | slash | missing
+	Redirect string `json:"redirect,omitempty"`  // "" the request's | other (another registered one) | caller (one of the As client) | missing | a near-miss derivation of the request's (nearKinds)
 	Ver      string `json:"ver,omitempty"`       // "" the request's verifier | wrong | missing | other (verifier of another request) | challenge (the challenge string itself)
 	Extra    bool   `json:"extra,omitempty"`     // token request additionally carries nonce= scope= state= sub= (must be ignored)
 }
@@ -99,8 +99,110 @@ func genClient(t *rapid.T, i int, kind string) vkit.ClientSpec {
 	if rapid.IntRange(0, 3).Draw(t, lbl+"second") == 0 {
 		c.RedirectURIs = append(c.RedirectURIs, "https://shared.example.com/cb2")
 	}
+	// registered URIs that carry a query themselves, have an empty path, a trailing slash, an explicit port
+	switch rapid.IntRange(0, 7).Draw(t, lbl+"shape") {
+	case 0, 1:
+		c.RedirectURIs = append(c.RedirectURIs, "https://rp-"+id+".example.com/cb?tenant=a&mode=x")
+	case 2:
+		c.RedirectURIs = append(c.RedirectURIs, "https://shared.example.com/cb?tenant=a") // shared, with query
+	case 3:
+		c.RedirectURIs = append(c.RedirectURIs, "https://bare-"+id+".example.com")
+	case 4:
+		c.RedirectURIs = append(c.RedirectURIs, "https://rp-"+id+".example.com:8443/auth/callback/")
+	}
 	c.JWTAccessToken = rapid.IntRange(0, 3).Draw(t, lbl+"jwtat") == 0
 	return c
+}
+
+// nearKinds: derivations of the request's redirect URI that a lenient ("normalising") comparison would let through.
+// All of them differ from the original as strings, so the statement ("equals") refuses every one.
+var nearKinds = []string{"add_query", "add_fragment", "slash", "upper_host", "upper_scheme", "userinfo", "default_port", "pct_encoded",
+	"extra_segment", "dotdot", "reorder_query", "drop_query"}
+
+var redirectChoices = append([]string{"", "", "", "", "", "", "", "", "", "", "", "", "other", "caller", "missing"}, nearKinds...)
+
+// nearMiss derives a near miss of u; kinds that do not apply to u fall back to an added query parameter.
+func nearMiss(kind, u string) string {
+	base, query, hasQuery := strings.Cut(u, "?")
+	withQuery := func(b string) string {
+		if hasQuery {
+			return b + "?" + query
+		}
+		return b
+	}
+	scheme, rest, hier := strings.Cut(base, "://") // hier: scheme://authority/path
+	authority, path := rest, ""
+	if hier {
+		if i := strings.Index(rest, "/"); i >= 0 {
+			authority, path = rest[:i], rest[i:]
+		}
+	}
+	out := u
+	switch kind {
+	case "add_fragment":
+		out = u + "#x"
+	case "slash":
+		if strings.HasSuffix(base, "/") {
+			out = withQuery(strings.TrimSuffix(base, "/"))
+		} else {
+			out = withQuery(base + "/")
+		}
+	case "upper_host":
+		if hier {
+			out = withQuery(scheme + "://" + strings.ToUpper(authority) + path)
+		}
+	case "upper_scheme":
+		if i := strings.Index(base, ":"); i > 0 {
+			out = withQuery(strings.ToUpper(base[:i]) + base[i:])
+		}
+	case "userinfo":
+		if hier {
+			out = withQuery(scheme + "://user@" + authority + path)
+		}
+	case "default_port":
+		if hier && !strings.Contains(authority, ":") {
+			port := map[string]string{"https": ":443", "http": ":80"}[scheme]
+			if port != "" {
+				out = withQuery(scheme + "://" + authority + port + path)
+			}
+		}
+	case "pct_encoded":
+		// the last letter of the path, percent-encoded (an equivalent spelling of the same path)
+		p := base
+		if hier {
+			p = path
+		}
+		for i := len(p) - 1; i >= 0; i-- {
+			if c := p[i]; (c >= 'a' && c <= 'z') || (c >= 'A' && c <= 'Z') {
+				enc := p[:i] + fmt.Sprintf("%%%02X", c) + p[i+1:]
+				if hier {
+					out = withQuery(scheme + "://" + authority + enc)
+				} else if j := strings.Index(base, ":"); j >= 0 && i > j {
+					out = withQuery(enc)
+				}
+				break
+			}
+		}
+	case "extra_segment":
+		out = withQuery(strings.TrimSuffix(base, "/") + "/extra")
+	case "dotdot":
+		out = withQuery(strings.TrimSuffix(base, "/") + "/x/..")
+	case "reorder_query":
+		if parts := strings.Split(query, "&"); hasQuery && len(parts) > 1 {
+			out = base + "?" + strings.Join(append(parts[1:], parts[0]), "&")
+		}
+	case "drop_query":
+		if hasQuery {
+			out = base
+		}
+	}
+	if out == u { // add_query, or the kind does not apply
+		if hasQuery {
+			return u + "&next=https://evil.example.net/"
+		}
+		return u + "?next=https://evil.example.net/"
+	}
+	return out
 }
 
 var backIdx = []int{0, 0, 0, 0, 0, 1, 1, 2, 3, 5}
@@ -129,7 +231,7 @@ func genExchange(t *rapid.T, nClients int) Op {
 	}
 	o.Pres = rapid.SampledFrom([]string{"", "", "", "", "", "", "", "", "wrong_secret", "id_only", "swap_method", "bad_key", "none"}).Draw(t, "pres")
 	o.BodyID = rapid.SampledFrom([]string{"", "", "", "", "", "own", "owner", "owner"}).Draw(t, "bodyid")
-	o.Redirect = rapid.SampledFrom([]string{"", "", "", "", "", "", "", "", "other", "caller", "slash", "missing"}).Draw(t, "redirect")
+	o.Redirect = rapid.SampledFrom(redirectChoices).Draw(t, "redirect")
 	o.Ver = rapid.SampledFrom([]string{"", "", "", "", "", "", "", "wrong", "missing", "missing", "other", "challenge"}).Draw(t, "ver")
 	o.Extra = rapid.IntRange(0, 3).Draw(t, "extra") == 0
 	return o
@@ -469,10 +571,11 @@ func (e *exec) exchange(i int, o Op) {
 		a.redirect = pickOther(owner)
 	case "caller":
 		a.redirect = pickOther(as)
-	case "slash":
-		a.redirect = reqRedirect + "/"
 	case "missing":
 		a.noRedirect = true
+	default:
+		a.redirect = nearMiss(o.Redirect, reqRedirect)
+		e.res.Label("redirect-near-miss:" + o.Redirect)
 	}
 
 	// code_verifier
@@ -757,10 +860,10 @@ func run(c Case) (res *vkit.Result) {
 
 var prop = vkit.Prop[Case]{
 	ID: "C04",
-	Rule: "cases = router (provider | legacy) x id-token alg x 3-5 registered clients (client_secret_basic, client_secret_post, private_key_jwt, public native / user-agent; a redirect URI shared on purpose; opaque or JWT access tokens) " +
+	Rule: "cases = router (provider | legacy) x id-token alg x 3-5 registered clients (client_secret_basic, client_secret_post, private_key_jwt, public native / user-agent; a redirect URI shared on purpose, some registered URIs with a query, an empty path, a trailing slash or a port; opaque or JWT access tokens) " +
 		"x history of 3-40 ops: authorize(client, registered uri, pkce none|plain|plain-without-method|S256, verifier from a pool of 4, scopes, nonce), login(req, user), callback(req), " +
 		"exchange(code incl. replays / mangled / garbage, as owner or another client, presentation right|wrong secret|id only|other method|assertion with unregistered key|none, extra body client_id, " +
-		"redirect same|other registered|caller's|slash variant|missing, verifier right|wrong|missing|of another request|the challenge itself, extra nonce/scope parameters); " +
+		"redirect same|other registered|caller's|missing|12 near-miss derivations of the request's URI (added query / fragment / userinfo / default port / extra or .. segment, trailing slash toggled, host or scheme upper-cased, percent-encoded path letter, query reordered / dropped; all must be refused), verifier right|wrong|missing|of another request|the challenge itself, extra nonce/scope parameters); " +
 		"oracle = code state machine written from the statement, two-sided; grey (asserts nothing on accept/refuse, still checks claims of issued tokens): mixed identity or non-registered method, verifier without challenge, " +
 		"a second code of a request whose other code was exchanged; non-trivial = the history contains an exchange that yields tokens and one the model refuses for a reason other than an unknown code; " +
 		"distinct = (router, set of owner-kind/pkce of successful exchanges, set of refusal-reason combinations per owner kind)",
